@@ -137,6 +137,10 @@ func buildJWKKey(ka *did.Verification) (*crypto.PublicKey, error) {
 	)
 
 	jwkKey := ka.VerificationMethod.JSONWebKey()
+	if jwkKey == nil {
+		return nil, fmt.Errorf("buildJWKKey: verification method '%s' has no JWK", ka.VerificationMethod.ID)
+	}
+
 	switch k := jwkKey.Key.(type) {
 	case *ecdsa.PublicKey:
 		x = k.X.Bytes()
